@@ -350,15 +350,8 @@ class Node(ModelElement):
         node_id = self.topo.graph_model.find_component_by_name(parent_node_id=self.node_id,
                                                                component_name=name)
 
-        for i in self.components[name].interface_list:
-            # disconnect if connected to a network service
-            peers = i.get_peers(itype=InterfaceType.ServicePort)
-            if peers:
-                if len(peers) == 1:
-                    # disconnect from its parent service
-                    self.topo.get_parent_element(peers[0]).disconnect_interface(i)
-                else:
-                    raise TopologyException(f'Interface {i.name} has more than one peer, this is a model error.')
+        # interfaces of the component and their sub-interfaces
+        self.topo._disconnect_from_services(self.components[name].interface_list)
         # remove component, its network service and interfaces (if present)
         self.topo.graph_model.remove_component_with_nss_cps_and_links(node_id=node_id)
 
